@@ -26,6 +26,9 @@ CONSTANTS NGPU,       \* number of GPUs (devices 1..NGPU; device 0 is the CPU)
           PT0MC,      \* MC only: initial page table [vpn -> [dev, ppn, mig]]
           PPagesMC,   \* MC only: [g -> set of physical page numbers of device g]
           MaxReq,     \* MC only: bound on MMU requests
+          MaxHost,    \* MC only: bound on host actions (allocate / write / free) beside the handshakes
+          ReleaseSrcEarly, \* named deviation: TRUE = the source frame of a re-homed page counts as free at once
+                      \*   (an allocation may receive it while the copy is pending) - MC_Migration_relsrc.cfg must fail
           ReplySlot   \* "hold": a new request is taken only after the previous reply left (intended design)
                       \* "overwrite": as implemented - toSendToMMU is one slot that the next handshake
                       \*   overwrites if the MMU port stayed blocked (deviation, see design/C19.md)
@@ -48,7 +51,9 @@ VARIABLES
   gpuIn,       \* Seq(rsp)   GPU port, incoming
   \* ---- memory management
   pt,          \* [vpn -> [dev, ppn, mig]] page table
-  alloc,       \* set of <<dev, ppn>> ever handed out by the allocator
+  held,        \* set of <<dev, ppn>>: source frames of page copies in flight (page re-homed, copy not done).
+               \* Such a frame is still OWNED: the allocator must not hand it out before the copy completed
+               \* (afterwards it may - or may leak it, as the code does - the specification allows both)
   \* ---- environment
   cpIn,        \* [g -> set of commands received by GPU g, unanswered]
   data,        \* [<<dev, ppn>> -> contents]
@@ -57,15 +62,17 @@ VARIABLES
   issued, accepted, replied,   \* Seq(req)
   inflight,    \* set of vpn re-homed and not copied yet
   moved,       \* set of vpn named in an accepted request
+  nHost,       \* MC only: host actions taken
   dropped,     \* ids of requests whose reply was overwritten before it left (ReplySlot = "overwrite")
   pt0, content0
 
 drvv  == <<mmuIn, cur, handling, toSend, migQ, toPrepare, oneInFlight, drainAck, shootAck, migAck, restartAck,
            rdmaAck, toMMU, mmuOut, gpuOut, gpuIn>>
-memv  == <<pt, alloc>>
+memv  == <<pt, held>>
 envv  == <<cpIn, data, quiet>>
 histv == <<issued, accepted, replied, inflight, moved, dropped, pt0, content0>>
-vars  == <<drvv, memv, envv, histv>>
+vars  == <<drvv, memv, envv, histv, nHost>>
+fvars == <<drvv, memv, envv, histv>>
 
 \* req: [id, host, accessing (set of GPUs), want ([g -> Seq(vpn)], only requesting GPUs), size, src]
 NoReq == [id |-> 0, host |-> 0, accessing |-> {}, want |-> <<>>, size |-> 0, src |-> ""]
@@ -76,11 +83,11 @@ Pairs(r)   == UNION {{<<g, r.want[g][i]>> : i \in 1..Len(r.want[g])} : g \in DOM
 Sorted(S)  == CHOOSE s \in [1..Cardinality(S) -> S] : \A i, j \in 1..Cardinality(S) : i < j => s[i] < s[j]
 SeqOf(S, f(_)) == LET s == Sorted(S) IN [i \in 1..Cardinality(S) |-> f(s[i])]
 
-EmptyInit(table, contents, allocated) ==
+EmptyInit(table, contents) ==
   /\ mmuIn = <<>> /\ cur = NoReq /\ handling = FALSE /\ toSend = <<>> /\ migQ = <<>> /\ toPrepare = {}
   /\ oneInFlight = FALSE /\ drainAck = 0 /\ shootAck = 0 /\ migAck = 0 /\ restartAck = 0 /\ rdmaAck = 0
   /\ toMMU = <<>> /\ mmuOut = <<>> /\ gpuOut = <<>> /\ gpuIn = <<>>
-  /\ pt = table /\ alloc = allocated
+  /\ pt = table /\ held = {}
   /\ cpIn = [g \in GPUs |-> {}] /\ data = contents /\ quiet = [g \in GPUs |-> {}]
   /\ issued = <<>> /\ accepted = <<>> /\ replied = <<>> /\ inflight = {} /\ moved = {} /\ dropped = {}
   /\ pt0 = table /\ content0 = [v \in DOMAIN table |-> contents[<<table[v].dev, table[v].ppn>>]]
@@ -117,11 +124,16 @@ SendMig(i, id) ==
 
 \* preparePageForMigration (one iteration of the loops in processShootdownCompleteRsp):
 \* allocate a fresh page p on the requesting GPU g, point the table at it, queue the copy
+DataAt(pp) == IF pp \in DOMAIN data THEN data[pp] ELSE -1
+LiveFrames == {<<pt[u].dev, pt[u].ppn>> : u \in DOMAIN pt}
+\* a frame the allocator may hand out: no live virtual page sits on it and it is not the source of a pending copy
+FreeFrame(g, p) == <<g, p>> \notin LiveFrames /\ (ReleaseSrcEarly \/ <<g, p>> \notin held)
+
 Rehome(g, v, p) ==
-  /\ <<g, v>> \in toPrepare /\ <<g, p>> \notin alloc
+  /\ <<g, v>> \in toPrepare /\ FreeFrame(g, p)
   /\ v \in DOMAIN pt
   /\ pt' = [pt EXCEPT ![v] = [dev |-> g, ppn |-> p, mig |-> TRUE]]
-  /\ alloc' = alloc \cup {<<g, p>>}
+  /\ held' = held \cup {<<pt[v].dev, pt[v].ppn>>}
   /\ migQ' = Append(migQ, [Cmd("mig", g) EXCEPT !.v = v, !.owner = cur.host, !.fdev = pt[v].dev, !.from = pt[v].ppn, !.to = p,
                                                  !.size = cur.size])
   /\ migAck' = migAck + 1
@@ -202,8 +214,35 @@ GPURsp(g, c, val) ==
                 [] c.k = "rdmarestart" -> [quiet EXCEPT ![g] = @ \ {"rdma"}]
                 [] OTHER               -> quiet
   /\ inflight' = IF c.k = "mig" THEN inflight \ {c.v} ELSE inflight
+  /\ held' = IF c.k = "mig" THEN held \ {<<c.fdev, c.from>>} ELSE held   \* the copy is done: the source frame is no longer needed
   /\ UNCHANGED <<mmuIn, cur, handling, toSend, migQ, toPrepare, oneInFlight, drainAck, shootAck, migAck, restartAck,
-                 rdmaAck, toMMU, mmuOut, gpuOut, memv, issued, accepted, replied, moved, dropped, pt0, content0>>
+                 rdmaAck, toMMU, mmuOut, gpuOut, pt, issued, accepted, replied, moved, dropped, pt0, content0>>
+
+\* ---------------------------------------------------------------- the host (application threads), at any time
+HostFrame == <<mmuIn, cur, handling, toSend, migQ, toPrepare, oneInFlight, drainAck, shootAck, migAck, restartAck,
+               rdmaAck, toMMU, mmuOut, gpuOut, gpuIn, held, cpIn, quiet, issued, accepted, replied, inflight, moved,
+               dropped, pt0>>
+\* AllocateMemory: a new virtual page v on a frame the allocator may hand out; val = what the frame holds
+HostAlloc(v, g, p, val) ==
+  /\ v \notin DOMAIN pt /\ FreeFrame(g, p)
+  /\ pt' = (v :> [dev |-> g, ppn |-> p, mig |-> FALSE]) @@ pt
+  /\ data' = (<<g, p>> :> val) @@ data
+  /\ content0' = (v :> val) @@ content0
+  /\ UNCHANGED HostFrame
+\* the application fills a page that is not being migrated
+HostWrite(v, val) ==
+  /\ v \in DOMAIN pt /\ v \notin inflight /\ \A pr \in toPrepare : pr[2] # v
+  /\ data' = (<<pt[v].dev, pt[v].ppn>> :> val) @@ data
+  /\ content0' = [content0 EXCEPT ![v] = val]
+  /\ UNCHANGED <<pt>> /\ UNCHANGED HostFrame
+\* FreeMemory of a page that is not being migrated
+HostFree(v) ==
+  /\ v \in DOMAIN pt /\ v \notin inflight /\ \A pr \in toPrepare : pr[2] # v
+  /\ \A i \in 1..Len(mmuIn) : v \notin Pages(mmuIn[i])
+  /\ (cur # NoReq /\ v \in Pages(cur)) => \E i \in 1..Len(replied) : replied[i].id = cur.id   \* its migration was answered
+  /\ pt' = [u \in (DOMAIN pt) \ {v} |-> pt[u]]
+  /\ content0' = [u \in (DOMAIN content0) \ {v} |-> content0[u]]
+  /\ UNCHANGED data /\ UNCHANGED HostFrame
 
 \* ------------------------------------------------------------------ MC next
 \* the MMU asks for pages that live on `host`, on behalf of one GPU other than the host
@@ -216,23 +255,31 @@ MCEnvReq ==
            /\ EnvMMUReq([id |-> Len(issued) + 1, host |-> h, accessing |-> acc,
                          want |-> (g :> SeqOf(vs, LAMBDA v : v)), size |-> 1, src |-> "MMU"])
 
-\* the allocator hands out the lowest free page of the device (MC; the trace binds the real choice)
-LowestFree(g) == CHOOSE p \in PPagesMC[g] : <<g, p>> \notin alloc /\ \A q \in PPagesMC[g] : <<g, q>> \notin alloc => p <= q
-DoRehome == \E pr \in toPrepare : (\E p \in PPagesMC[pr[1]] : <<pr[1], p>> \notin alloc) /\ Rehome(pr[1], pr[2], LowestFree(pr[1]))
+\* MC: the allocator hands out the lowest frame it may hand out (a trace binds the real allocator's choice)
+HasFree(g) == \E p \in PPagesMC[g] : FreeFrame(g, p)
+LowestFree(g) == CHOOSE p \in PPagesMC[g] : FreeFrame(g, p) /\ \A q \in PPagesMC[g] : FreeFrame(g, q) => p <= q
+DoRehome == \E pr \in toPrepare : HasFree(pr[1]) /\ Rehome(pr[1], pr[2], LowestFree(pr[1]))
+\* host actions of the model: a new page (vpn 100 + n), a write of a fresh value, a free
+MCHost ==
+  /\ nHost < MaxHost /\ nHost' = nHost + 1
+  /\ \/ \E g \in GPUs : HasFree(g) /\ HostAlloc(100 + nHost, g, LowestFree(g), DataAt(<<g, LowestFree(g)>>))
+     \/ \E v \in DOMAIN pt : HostWrite(v, 900 + nHost)
+     \/ \E v \in {u \in DOMAIN pt : u >= 100} : HostFree(v)
 DoSendCmd == toSend # <<>> /\ SendCmd(1, 0)
 Copied(c) == IF c.k = "mig" /\ <<c.owner, c.from>> \in DOMAIN data THEN data[<<c.owner, c.from>>] ELSE -1
 DoGPURsp == \E g \in GPUs : \E c \in cpIn[g] : GPURsp(g, c, Copied(c))
 
-Next == TakeMMU \/ RecvRsp \/ SendReply \/ TakeReply \/ GPUTake \/ MCEnvReq \/ DoSendCmd \/ SendMig(1, 0) \/ DoRehome \/ DoGPURsp
+Next == \/ (TakeMMU \/ RecvRsp \/ SendReply \/ TakeReply \/ GPUTake \/ MCEnvReq \/ DoSendCmd \/ SendMig(1, 0) \/ DoRehome \/ DoGPURsp)
+           /\ UNCHANGED nHost
+        \/ MCHost
 
 MCPhys == UNION {{<<g, p>> : p \in PPagesMC[g]} : g \in GPUs}
-Init == EmptyInit(PT0MC, [pp \in MCPhys |-> 100 * pp[1] + pp[2]],
-                  {<<PT0MC[v].dev, PT0MC[v].ppn>> : v \in DOMAIN PT0MC})
+Init == EmptyInit(PT0MC, [pp \in MCPhys |-> 100 * pp[1] + pp[2]]) /\ nHost = 0
 Spec == Init /\ [][Next]_vars
 
 Fairness ==
-  /\ WF_vars(TakeMMU) /\ WF_vars(RecvRsp) /\ WF_vars(SendReply) /\ WF_vars(TakeReply) /\ WF_vars(GPUTake)
-  /\ WF_vars(DoSendCmd) /\ WF_vars(SendMig(1, 0)) /\ WF_vars(DoRehome) /\ WF_vars(DoGPURsp)
+  /\ WF_fvars(TakeMMU) /\ WF_fvars(RecvRsp) /\ WF_fvars(SendReply) /\ WF_fvars(TakeReply) /\ WF_fvars(GPUTake)
+  /\ WF_fvars(DoSendCmd) /\ WF_fvars(SendMig(1, 0)) /\ WF_fvars(DoRehome) /\ WF_fvars(DoGPURsp)
 FairSpec == Spec /\ Fairness
 
 \* -------------------------------------------------------------- properties
@@ -240,19 +287,20 @@ IsPrefix(s, t) == Len(s) <= Len(t) /\ \A i \in 1..Len(s) : s[i] = t[i]
 Outstanding(k) == {c \in UNION {cpIn[g] : g \in GPUs} : c.k = k} \cup {gpuOut[i] : i \in {j \in 1..Len(gpuOut) : gpuOut[j].k = k}}
 
 \* the contents seen through the page table are those of before the migration (pages being copied excepted)
-DataAt(pp) == IF pp \in DOMAIN data THEN data[pp] ELSE -1
 ContentsPreserved == \A v \in DOMAIN pt : v \notin inflight => DataAt(<<pt[v].dev, pt[v].ppn>>) = content0[v]
 
 \* when the MMU is answered, every requested page is mapped on the GPU that asked for it and has been copied
 TableMapsToDestination ==
-  \A i \in 1..Len(toMMU) : \A pr \in Pairs(toMMU[i]) : pt[pr[2]].dev = pr[1] /\ pr[2] \notin inflight
+  \A i \in 1..Len(toMMU) : \A pr \in Pairs(toMMU[i]) :
+    pr[2] \in DOMAIN pt => (pt[pr[2]].dev = pr[1] /\ pr[2] \notin inflight)   \* (unless the host freed it meanwhile)
 
 \* no two virtual pages share a physical page; a re-homed page sits on a page of its own device
 NoAlias == \A v, u \in DOMAIN pt : v # u => <<pt[v].dev, pt[v].ppn>> # <<pt[u].dev, pt[u].ppn>>
-Allocated == \A v \in DOMAIN pt : <<pt[v].dev, pt[v].ppn>> \in alloc
+\* the source frame of a pending copy belongs to that copy: no live virtual page sits on it
+HeldApart == held \cap LiveFrames = {}
 
 \* pages not named in any accepted request keep their mapping
-OthersUnchanged == \A v \in DOMAIN pt : v \notin moved => pt[v] = pt0[v]
+OthersUnchanged == \A v \in (DOMAIN pt) \cap (DOMAIN pt0) : v \notin moved => pt[v] = pt0[v]
 
 \* a page is only copied while every RDMA engine is drained and every accessing GPU is shot down
 CopyOnlyWhenQuiet ==
